@@ -6,6 +6,7 @@ import KyupyVerif.Proofs.GenOpsWO
 import KyupyVerif.Proofs.StripLinkMem
 import KyupyVerif.Gen.Tables
 import KyupyVerif.Proofs.CycleNet
+import KyupyVerif.Proofs.CycleMem
 /-! # C01 — 2-valued logic simulation computes the netlist's Boolean function
 
 Generated from the working tree: `Gen.sem2n` (what `logic_sim._prop_cpu` computes for an op code),
@@ -271,6 +272,63 @@ theorem nextState_unique {α} (tbl : List PrefixRow) (net : Net) (order : List N
     Cycle.nextState sem (sigOps tbl net order false) net false merge d env a = nextRow net false merge val a :=
   nextRow_congr net false merge _ _ a fun p => sol_eq_val tbl net order hwf ho sem _ val hval _ (capSig_notJunk net hwf p)
 
+open KV.Cycle in
+/-- (7'') the form the correspondence runs evaluate: the compiled driver runs `cycleKA` (memory as an array of `c_locs_len`
+    entries); it leaves the same `s` (and memory) as `cycleK`, for every well-formed netlist, order, `strip_forks` setting -/
+theorem cycle_array_form {α} (tbl : List PrefixRow) (net : Net) (order : List Nat) (strip : Bool)
+    (hwf : net.wfB = true) (ho : orderOKB net order = true) (sem : Op → List α → α) (merge : α → α → α) (d : α)
+    (k : Nat) (st : StA α) (hn : st.env.size = net.idx.len) :
+    toSt d (cycleKA sem (sigOps tbl net order strip) (tabsOf net strip) merge d k st) =
+      cycleK sem (sigOps tbl net order strip) (tabsOf net strip) merge d k (toSt d st) :=
+  cycleKA_eq sem _ _ merge d net.idx.len (sigOps_out tbl net order strip hwf (orderOK_lt ho)) (pippi_lt net strip) k st hn
+
+open KV.Cycle in
+/-- (8) **`cycle(k)` on memory = `cycle(k)` on signals.** `Cycle.cycleKM` (Proofs/CycleMem.lean) is the loop with `s_to_c` writing the
+    rows `c_locs[ppi_offset + p]`, the real op rows running on memory (one row per signal, any allocator, with or without
+    `c_reuse` / `strip_forks`), `c_to_s` reading the rows `c_locs[ppo_offset + p]`. If the real tables pass the map certificate
+    (C08, evaluated on every generated case), every flip-flop / latch has an output pin list (`stateOutsB`: then every row
+    `s_to_c` writes is allocated; otherwise NumPy's index -1 addresses the last row) and the (P)PO slot of a state element with
+    open data pin is the row of the constant slot (`zeroCapB`, the D9 repair read off the table), then for every k, every
+    initial memory `m0` and every signal environment `env0` that agrees with it on the constant slot, the `s` array after k
+    cycles on memory is the `s` array of the signal-level model — to which (6), (7) apply. -/
+theorem cycle_on_memory {α} [Inhabited α] (tbl : List PrefixRow) (p : MapIn) (order : List Nat)
+    (hops : p.ops = genOps tbl p.net order p.strip) (hc : p.check = none) (hpos : 0 < p.capsMin)
+    (hso : stateOutsB p.net = true) (hzc : zeroCapB p = true)
+    (f : Nat → List α → α) (merge : α → α → α) (d : α) (k : Nat) (m0 : Int → α) (env0 : Nat → α) (s : S α)
+    (hz : m0 (p.loc p.ix.zero) = env0 p.ix.zero) :
+    (cycleKM p f (tabsOf p.net p.strip) merge d k ⟨m0, s⟩).s =
+      (cycleK (fun op => f op.code) (sigOps tbl p.net order p.strip) (tabsOf p.net p.strip) merge d k ⟨env0, s⟩).s := by
+  have hmap : p.ops.map (MapSound.sigOp p) = sigOps tbl p.net order p.strip := by
+    rw [hops]; rfl
+  rw [← hmap]
+  exact cycleKM_eq p hc hpos hso hzc f merge d k m0 env0 s hz
+
+open KV.Cycle in
+/-- (8') **end to end, sequential**: (7) for the loop ON MEMORY — for every well-formed netlist, topological order, accepted
+    certificate: `s[0]` after `cycle(k)` on memory is the k-fold next-state iterate, port rows untouched, `s[1]` the capture of
+    the labelling of the previous assignment. -/
+theorem cycle_end_to_end {α} [Inhabited α] (tbl : List PrefixRow) (p : MapIn) (order : List Nat)
+    (hwf : p.net.wfB = true) (ho : orderOKB p.net order = true) (hs : p.strip = false)
+    (hops : p.ops = genOps tbl p.net order false) (hc : p.check = none) (hpos : 0 < p.capsMin)
+    (hso : stateOutsB p.net = true) (hzc : zeroCapB p = true)
+    (f : Nat → List α → α) (merge : α → α → α) (d : α) (k : Nat) (m0 : Int → α) (env0 : Nat → α) (s : S α)
+    (hz : m0 (p.loc p.ix.zero) = env0 p.ix.zero)
+    (h0 : s.s0.length = p.net.sNodes.length) (h1 : s.s1.length = p.net.sNodes.length) :
+    let ops := sigOps tbl p.net order false
+    let N := Cycle.nextState (fun op => f op.code) ops p.net false merge d env0
+    let r := cycleKM p f (tabsOf p.net false) merge d k ⟨m0, s⟩
+    r.s.s0 = iter N k s.s0 ∧
+    (∀ q, q < p.net.io.length → r.s.s0[q]? = s.s0[q]?) ∧
+    (∀ j, k = j + 1 → r.s.s1 = captureRow p.net false
+        (solOf (fun op => f op.code) ops (tabsOf p.net false) d env0 (iter N j s.s0)) s.s1) := by
+  intro ops N r
+  have hm := cycle_on_memory tbl p order (by rw [hs]; exact hops) hc hpos hso hzc f merge d k m0 env0 s hz
+  rw [hs] at hm
+  have hi := cycle_iter tbl p.net order hwf ho (fun op => f op.code) merge d ⟨env0, s⟩ h0 h1 k
+  show (cycleKM p f (tabsOf p.net false) merge d k ⟨m0, s⟩).s.s0 = _ ∧ _
+  rw [hm]
+  exact hi
+
 /-- non-vacuity of (6), (7): a toggle flip-flop with enable (`q' = q XOR en`; ports `en`, `out = q`), natural order.
     With `en = 1` the state has period 2; the port row stays as assigned; the output port captures the OLD state. -/
 def demoSeq : Net :=
@@ -291,6 +349,17 @@ example : Cycle.tabsOf demoSeq false =
 example : (demoRun 1 true false).s0 = [true, false, true] ∧ (demoRun 1 true false).s1 = [false, false, true] ∧
     (demoRun 2 true false).s0 = [true, false, false] ∧ (demoRun 2 true false).s1 = [false, true, false] ∧
     (demoRun 5 true false).s0 = [true, false, true] ∧ (demoRun 3 false true).s0 = [false, false, true] := by decide +kernel
+
+/-- non-vacuity of (8), (8'): the REAL tables of `LogicSim(c_reuse=True)` for `demoSeq` and the REAL `topological_order()` -/
+def demoSeqMap : MapIn :=
+  { net := demoSeq, strip := false,
+    ops := [⟨43690, 0, 10, 7, 7, 7⟩, ⟨43690, 2, 12, 7, 7, 7⟩, ⟨43690, 1, 0, 7, 7, 7⟩, ⟨43690, 3, 2, 7, 7, 7⟩,
+            ⟨43690, 6, 2, 7, 7, 7⟩, ⟨26214, 4, 1, 3, 7, 7⟩, ⟨43690, 5, 4, 7, 7, 7⟩],
+    starts := [0, 2, 5, 6], locs := #[5, 7, 6, 8, 5, 6, 9, 0, 1, 2, 3, -1, 4, -1, 9, 6],
+    caps := #[1, 1, 1, 1, 1, 1, 1, 1, 1, 1, 1, 0, 1, 0, 1, 1], cLen := 10, capsMin := 1 }
+example : demoSeqMap.ops = genOps Gen.kindPrefixes demoSeq [0, 2, 1, 3, 4, 6, 5] false ∧ demoSeqMap.check = none ∧
+    orderOKB demoSeq [0, 2, 1, 3, 4, 6, 5] = true ∧ Cycle.stateOutsB demoSeq = true ∧ Cycle.zeroCapB demoSeqMap = true := by
+  decide +kernel
 
 /-- (5) lane-wise for every lane count: lane `k` of the bit-parallel result is the per-lane function -/
 theorem lanewise2 (w k : Nat) (hk : k < w) (code : Nat) (a b c d : BitVec w) :
